@@ -92,7 +92,7 @@ def case_vcf(run, i):
             cols["chromosome"].append(c); cols["start"].append(pos); cols["end"].append(pos + ln); cols["gene"].append("-")
             cols["log2"].append(float(rng.normal(0, 0.5))); cols["probes"].append(10); cols["weight"].append(1.0)
             pos += ln + int(rng.choice([0, 0, 1000]))
-    seg = make_cna(cols)
+    seg = make_cna(cols, odd=(i % 3 == 1))     # every third table carries non-default row labels, as a filtered table does
     for va in arrays:
         if va is None or not len(va):
             continue
